@@ -194,7 +194,7 @@ func initArrayList() {
 			val := args[1]
 
 			var removed bool
-			for i := 0; i < self.Length(); i++ {
+			for i := 0; i < self.Length(); {
 				elem := self.AtVal(i)
 				isEqual, err := Equal(vm, elem, val)
 				if !err.IsUndefined() {
@@ -202,9 +202,12 @@ func initArrayList() {
 				}
 
 				if value.Truthy(isEqual) {
+					// the next element has moved to index `i`
 					self.RemoveAt(i)
 					removed = true
+					continue
 				}
+				i++
 			}
 
 			return value.BoolVal(removed), value.Undefined
@@ -216,10 +219,38 @@ func initArrayList() {
 		"remove_at",
 		func(vm *Thread, args []value.Value) (value.Value, value.Value) {
 			self := args[0].AsReference().(value.ArrayList)
-			val := args[1].AsInt()
-			return value.Nil, self.RemoveAtErr(val)
+			index, ok := value.IntToGoInt(args[1])
+			if !ok {
+				return value.Undefined, value.Ref(value.NewIndexOutOfRangeError(args[1].Inspect(), self.Length()))
+			}
+			return value.Nil, self.RemoveAtErr(index)
 		},
 		DefWithParameters(1),
+	)
+	Def(
+		c,
+		"pop",
+		func(vm *Thread, args []value.Value) (value.Value, value.Value) {
+			self := args[0].AsReference().(value.ArrayList)
+			last, err := self.SubscriptInt(-1)
+			if !err.IsUndefined() {
+				return value.Undefined, err
+			}
+			self.RemoveAt(self.Length() - 1)
+			return last, value.Undefined
+		},
+	)
+	Alias(c, "<<@", "pop")
+	Def(
+		c,
+		"clear",
+		func(vm *Thread, args []value.Value) (value.Value, value.Value) {
+			self := args[0].AsReference().(value.ArrayList)
+			for self.Length() > 0 {
+				self.RemoveAt(self.Length() - 1)
+			}
+			return value.Nil, value.Undefined
+		},
 	)
 	Def(
 		c,
